@@ -9,7 +9,7 @@ use crate::wire;
 use crate::world::{Cond, Opts, Outcome, Scenario};
 use std::collections::{BTreeMap, BTreeSet};
 
-pub const PROGRAMS: &[&str] = &["auto", "txn", "failtxn", "exttxn", "batch2", "pipelined", "copyin", "copyout", "copyfail", "copyout-srvfail", "copyin-srvfail"];
+pub const PROGRAMS: &[&str] = &["auto", "txn", "failtxn", "exttxn", "batch2", "pipelined", "copyin", "copyout", "copyfail", "copyout-srvfail", "copyin-srvfail", "bigrow"];
 
 fn ext(tagstr: &str, sql: &str) -> Vec<u8> {
     let mut b = wire::parse("", &format!("{} /*{}*/", sql, tagstr), &[]);
@@ -93,6 +93,14 @@ pub fn program(c: usize, prog: &str, user: &str, db: &str, pw: &str) -> Script {
                 .q(&format!("SELECT ERR! /*{}*/", t(1, 0)))
                 .q(&format!("SELECT 3 /*{}*/", t(2, 0)));
         }
+        "bigrow" => {
+            // a reply whose first row alone is larger than the pooler's 8196-byte relay chunk, then several 4 KB rows
+            s = s
+                .q(&format!("SELECT big /*{} rows=1 size=12000*/", t(0, 0)))
+                .q(&format!("SELECT 2 /*{}*/", t(1, 0)))
+                .q(&format!("SELECT big /*{} rows=3 size=4000*/", t(2, 0)))
+                .q(&format!("SELECT 3 /*{}*/", t(3, 0)));
+        }
         "copyfail" => {
             s = s
                 .send(wire::query(&format!("COPY t FROM STDIN /*{}*/", t(0, 0))), "Q COPY FROM STDIN")
@@ -155,7 +163,7 @@ pub fn timeout_scenario(mode: &str, pool_size: u32, victim: &str) -> Scenario {
             v = v.send(wire::query(&format!("SELECT SLOW! /*{}*/", t(1, 0))), "Q SELECT SLOW!").close(CloseKind::Fin);
         }
         "slow-stay" => {
-            v = v.q(&format!("SELECT SLOW! /*{}*/", t(1, 0))).step(crate::world::Step::Reconnect { user: "alice".into(), db: "db".into(), password: Some("alicepw".into()) }).q(&format!("SELECT 2 /*{}*/", t(2, 0))).terminate();
+            v = v.q(&format!("SELECT SLOW! /*{}*/", t(1, 0))).step(crate::world::Step::Reconnect { user: "alice".into(), db: "db".into(), password: Some("alicepw".into()) }).send(wire::query(&format!("SELECT 2 /*{}*/", t(2, 0))), "Q SELECT 2").wait(Cond::ReplyOrClosed).terminate();
         }
         "slow-in-txn-drop" => {
             v = v.q(&format!("BEGIN /*{}*/", t(1, 0))).send(wire::query(&format!("SELECT SLOW! /*{}*/", t(1, 1))), "Q SELECT SLOW!").close(CloseKind::HardDrop);
@@ -188,6 +196,10 @@ pub fn oracle(sc: &Scenario, out: &Outcome) -> Vec<Violation> {
     let mut vs = Vec::new();
     let session_mode = sc.name.contains("mode=session");
     let nclients = sc.actors.len();
+    // every statement gets its reply: a client left waiting for ever received somebody else's share, or none
+    if out.blocked {
+        vs.push(v("C01.no-reply", "C01.no-reply".to_string(), format!("a client never received the reply to its statement: {}", blocked_note(log).unwrap_or_default())));
+    }
 
     // (1) exclusivity per backend connection
     for conn in conn_ids(log) {
@@ -370,7 +382,7 @@ pub fn build(tier: &str) -> SimCheck {
         oracle: Box::new(oracle),
         bound: if thorough { 3 } else { 2 },
         limits: Limits { max_wall_s: if thorough { 2400.0 } else { 50.0 }, ..Default::default() },
-        rule: "scenario = pool mode x pool_size x tuple of client programs (simple, multi-statement, failed, extended, pipelined, COPY in/out/fail transactions; extended-protocol pairs also with the statement cache on), plus timeout scenarios (statement answered after statement_timeout with the client present / dropped / FIN / inside a transaction, idle-in-transaction timeout) next to three other clients; every schedule of client sends, backend reply deliveries and checkouts with at most `bound` deviations from run-to-completion order; distinct = distinct observable end-to-end histories".into(),
+        rule: "scenario = pool mode x pool_size x tuple of client programs (simple, multi-statement, failed, extended, pipelined, COPY in/out/fail transactions, replies with rows larger than the relay chunk; extended-protocol pairs also with the statement cache on), plus timeout scenarios (statement answered after statement_timeout with the client present / dropped / FIN / inside a transaction, idle-in-transaction timeout) next to three other clients; every schedule of client sends, backend reply deliveries and checkouts with at most `bound` deviations from run-to-completion order; distinct = distinct observable end-to-end histories".into(),
         assumptions: vec![
             "reference backend (mockpg) is the trusted model of a PostgreSQL session".into(),
             "single-threaded runtime: interleavings at await-point granularity".into(),
